@@ -18,7 +18,8 @@ META = {
     "level_text": "Exhaustive within bounds on the models: volume vectors of <=3 (thorough 4) volumes of 0..3 bytes x every "
                   "reachable chain state x every operation (read(0..4), seek Start/Current/End inside [0,len]); archives of "
                   "<=2 members (thorough: also 3) over names of <=3 components from {name, .., ., empty, absolute} x 5 pattern "
-                  "classes. Every such transition is executed on the real chain (zero drift required for the fast path); "
+                  "classes; histories of 2 (thorough: 3) requests over 4 pattern classes against one archive (9-name universe) with the "
+                  "per-archive temp dir reused. Every such transition is executed on the real chain (zero drift required for the fast path); "
                   "quick: all 3.6k archives x patterns of the small name universe plus a seeded sample of the medium one; thorough: all 30k of small+medium plus a 60k sample of the two large enumerations.",
     "level_note": "Narrower readings: seeks only to targets inside [0,len] (seeking beyond the end is clamped by design); "
                   "archives in which two members denote the same raw name or the same target path are outside the driver's "
@@ -141,6 +142,20 @@ def binding_selftest(ctx, scases, sv, xcases, xv, kf):
         muts.append(("one reported path removed", t))
         muts.append(("result line deleted", copy.deepcopy(base)[:1]))
         muts.append(("unchanged (control: must be accepted)", copy.deepcopy(base)))
+    # a history whose second request reports a member that an earlier request extracted already (and at least one more)
+    hist = next((k for k in xcases if k not in xv.violations and k not in xv.known and len(xcases[k]) == 3
+                 and xcases[k][1]["ev"] == "result" and xcases[k][2]["ev"] == "result" and xcases[k][1]["tree"]
+                 and len(xcases[k][2]["tree"]) > len(xcases[k][1]["tree"])), None)
+    if hist is not None:
+        hb = xcases[hist]
+        t = copy.deepcopy(hb); t[2]["reported"] = [r for r in t[2]["reported"] if r["rel"] in [x["rel"] for x in t[1]["tree"]]]
+        muts.append(("history: second request reports only what was there already", t))
+        t = copy.deepcopy(hb); t[2]["tree"] = t[1]["tree"]
+        muts.append(("history: second request extracted nothing new", t))
+        muts.append(("history: second result line deleted", copy.deepcopy(hb)[:2]))
+        muts.append(("unchanged history (control: must be accepted)", copy.deepcopy(hb)))
+    elif not ctx.violations:
+        raise c.ToolError("binding self-test extract: no accepted 2-request history that adds files to a reused temp dir")
     out["extract"] = _run_selftest(ctx, "extract", "ExtractTrace.tla", muts, {"KF_C20_ReportedPreexisting": kf["KF_C20_ReportedPreexisting"]})
     return out
 
@@ -164,7 +179,7 @@ def _run_selftest(ctx, name, module, muts, consts):
     for i, (what, _) in enumerate(muts):
         rejected = i in v.violations
         res[what] = "rejected" if rejected else "accepted"
-        want = not what.startswith("unchanged")
+        want = not what.startswith("unchanged")      # ("unchanged ..." controls must be accepted)
         if rejected != want:
             raise c.ToolError("binding self-test %s: corrupted trace '%s' was %s by %s" % (name, what, res[what], module))
     return res
@@ -212,8 +227,10 @@ def check(ctx):
     # ------------------------------------------------------------------ part 2: extraction
     # enumerated completely and replayed completely: Extract_quick (quick) / + medium (thorough); additionally a seeded
     # sample of the medium enumeration (quick) / of thorough2 + thorough3 (thorough, 60k of ~180k) is replayed
-    full_cfgs = ["Extract_quick.cfg"] if quick else ["Extract_quick.cfg", "Extract_medium.cfg"]
-    samp_cfgs = ["Extract_medium.cfg"] if quick else ["Extract_thorough2.cfg", "Extract_thorough3.cfg"]
+    # Extract_hist*: HISTORIES of 2 (quick) / 3 (thorough) requests against the same archive with the temp dir reused
+    # (overlapping, nested, identical, disjoint patterns): every request must report exactly its Expected set
+    full_cfgs = ["Extract_quick.cfg", "Extract_hist2.cfg"] if quick else ["Extract_quick.cfg", "Extract_hist2.cfg", "Extract_medium.cfg", "Extract_hist3.cfg"]
+    samp_cfgs = ["Extract_medium.cfg"] if quick else ["Extract_thorough2.cfg", "Extract_thorough3.cfg", "Extract_hist2m3.cfg"]
     seen = set()
 
     def enum(cfgs):
@@ -221,7 +238,7 @@ def check(ctx):
         for cfg in cfgs:
             r = c.tlc_must_pass(ctx, "extract-" + cfg[:-4], "mc/MCExtract.tla", cfg, timeout=3000)
             for s in c.scn_lines(r):
-                key = json.dumps([s["members"], s["glob"]], sort_keys=True)
+                key = json.dumps([s["members"], s["globs"]], sort_keys=True)
                 if key not in seen:
                     seen.add(key)
                     out.append(s)
@@ -270,14 +287,15 @@ def check(ctx):
     for k, evs in xcases.items():
         h = evs[0]["hdr"]
         hostile = any(m["name"][0] in ("/", "..") or ".." in m["name"] for m in h["members"])
-        extracted = len(evs) > 1 and evs[1].get("tree")
+        extracted = len(evs) > 1 and evs[-1].get("tree")
         if hostile or extracted:
-            xd.add(json.dumps([h["members"], h["glob"]], sort_keys=True))
+            xd.add(json.dumps([h["members"], h["globs"]], sort_keys=True))
     ctx.distinct_nontrivial = nontrivial + len(dseen) + len(xd)
     ctx.rule = ("SeekChain: a case = one path of operations on one volume vector; TLC cases = every (reachable model state, operation) "
                 "pair once, non-trivial when there are >= 2 volumes; random cases distinct by (sizes, observed event list), non-trivial "
-                "with >= 2 volumes. Extract: a case = one archive x pattern written as a real zip and extracted; non-trivial when a "
-                "member name is absolute/contains .. or something was extracted; distinct by (members, pattern)")
+                "with >= 2 volumes. Extract: a case = one archive written as a real zip x a history of 1..3 pattern requests "
+                "issued against it with the temp dir reused; non-trivial when a member name is absolute/contains .. or something was "
+                "extracted; distinct by (members, request history)")
     ctx.exhaustive = True
     ctx.extra["seek"] = {k: sinfo[k] for k in ("replayed", "fast_path", "slow_path", "drift", "predicted_not_ok", "cases", "lines")}
     ctx.extra["seek_paths"] = sinfo["paths"]
@@ -297,7 +315,10 @@ def check(ctx):
     need_s = ["op_read", "op_seek_start", "op_seek_cur", "op_seek_end", "op_read_to_end", "empty_first", "empty_middle", "empty_last",
               "file_backed", "scn_with_empty_volume"]
     need_x = ["member_absolute", "member_dotdot", "member_dir", "member_empty", "member_target_preexists", "multi_volume_archive",
-              "extracted_something", "glob_all", "glob_ext", "glob_dirp", "glob_exact", "glob_nofilter"]
+              "extracted_something", "glob_all", "glob_ext", "glob_dirp", "glob_exact", "glob_nofilter",
+              "history_of_2_requests", "later_request_found_files_and_added_more", "later_request_served_from_temp_dir"]
+    if not quick:
+        need_x.append("history_of_3_requests")
     missing = [k for k in need_s if not sinfo["paths"].get(k)] + [k for k in need_x if not xp.get(k)]
     # (the emission model is the repaired chain, Fixed = TRUE: it predicts no deviation; the pinned snapshot's model with empty
     # volumes is SeekChain_snapshot.cfg, which must still exhibit the early end-of-file - see below)
